@@ -410,6 +410,9 @@ func (k c02) Run(c *mon.Ctx, workload string, i int64) {
 		c.Violate(cl, fmt.Sprintf("%s\n--- program\n%s--- reference result: %s", r.Detail, src, want), info)
 		return
 	}
+	if !againV1(c, script, name, src, cs.Point, nil, mo, i%4 == 0 || workload != "table", "", info) {
+		return
+	}
 	if c.WantSample() && mo.Unspecified == "" && (workload == "trees" || i%977 == 0) {
 		res := "error"
 		if mo.Err == nil && len(mo.Events) > 0 {
